@@ -2,14 +2,18 @@
 //! DESIGN.md §3.3.  One input line = one operation, one output line per input line.
 
 mod attrs;
+mod cmapio;
 mod fmt;
+mod grid;
 mod s2;
+mod s3;
 
 use std::io::{BufRead, BufWriter, Write};
 
 pub enum Sess {
     None,
     D2(s2::S2),
+    D3(s3::S3),
 }
 
 fn main() {
@@ -36,6 +40,12 @@ fn main() {
 }
 
 fn step(sess: &mut Sess, toks: &[&str]) -> String {
+    if let Some(r) = cmapio::step(sess, toks) {
+        return r;
+    }
+    if let Some(r) = grid::step(sess, toks) {
+        return r;
+    }
     if toks[0] == "load" {
         // load <dim> <n> <mask> b0.. ; b1.. ; b2.. [; b3..] ; u..
         if toks.len() < 4 {
@@ -71,6 +81,19 @@ fn step(sess: &mut Sess, toks: &[&str]) -> String {
                 *sess = Sess::D2(s);
                 "ok".into()
             }
+            3 => {
+                let mut s = s3::S3::new(n, mask);
+                for (x, u) in groups[4].iter().enumerate() {
+                    if *u != 0 {
+                        s.map.remove_free_dart(x as u32);
+                    }
+                }
+                for x in 0..=n {
+                    s.map.set_betas(x as u32, [groups[0][x], groups[1][x], groups[2][x], groups[3][x]]);
+                }
+                *sess = Sess::D3(s);
+                "ok".into()
+            }
             _ => "bad-op".into(),
         }
     } else if toks[0] == "new" {
@@ -91,12 +114,17 @@ fn step(sess: &mut Sess, toks: &[&str]) -> String {
                 *sess = Sess::D2(s2::S2::new(n, mask));
                 "ok".into()
             }
+            3 => {
+                *sess = Sess::D3(s3::S3::new(n, mask));
+                "ok".into()
+            }
             _ => "bad-op".into(),
         }
     } else {
         match sess {
             Sess::None => "bad-op".into(),
             Sess::D2(s) => s.step(toks),
+            Sess::D3(s) => s.step(toks),
         }
     }
 }
